@@ -507,37 +507,46 @@ theorem field_rel (o : Oracle) (fi : FInfo) : ∀ (sh : Shape) (p : Path) (st : 
       exact relV_mustNotBeNull sh.nn p st e hne hc
     | reached =>
       simp only []
-      cases o.res p with
+      -- the invocation record of the field's own "resolver" (none for a plain struct field)
+      have hres : ∀ s' : St, s'.resolved fi.plain p =
+          s'.append (eff [] (if fi.plain then [] else [(pathStr p, "resolver")])) := by
+        intro s'
+        unfold St.resolved
+        cases fi.plain
+        · simp [St.invoked_eq]
+        · apply St.ext' <;> simp
+      generalize hI : (if fi.plain then ([] : List (String × String)) else [(pathStr p, "resolver")]) = I at hres
+      cases o.outcome fi p with
       | missing =>
         simp only []
         rw [St.unlogged_eq, St.append_assoc]
         exact relV_failed sh.nn p st _ (Under.append (under_noerrs p e hne) (under_noerrs p _ rfl))
       | err m =>
         simp only []
-        rw [St.invoked_eq, St.addErr_eq, St.append_assoc, St.append_assoc]
-        refine relV_failed sh.nn p st _ ?_
-        have : (eff [] [(pathStr p, "resolver")]).append (eff [⟨p, m⟩]) = eff [⟨p, m⟩] [(pathStr p, "resolver")] := by
+        rw [hres, St.addErr_eq, St.append_assoc, St.append_assoc]
+        have : (eff [] I).append (eff [⟨p, m⟩]) = eff [⟨p, m⟩] I := by
           apply St.ext' <;> simp
         rw [this]
+        refine relV_failed sh.nn p st _ ?_
         exact Under.append (under_noerrs p e hne) (under_single' _ _ _ _)
       | panic m =>
         simp only []
-        rw [St.panic_eq, St.invoked_eq, St.append_assoc, St.append_assoc]
-        refine relV_failed sh.nn p st _ ?_
-        have : (eff [] [(pathStr p, "resolver")]).append (eff [⟨p, "recovered: " ++ m⟩] [] 1) =
-            eff [⟨p, "recovered: " ++ m⟩] [(pathStr p, "resolver")] 1 := by
+        rw [St.panic_eq, hres, St.append_assoc, St.append_assoc]
+        have : (eff [] I).append (eff [⟨p, "recovered: " ++ m⟩] [] 1) =
+            eff [⟨p, "recovered: " ++ m⟩] I 1 := by
           apply St.ext' <;> simp
         rw [this]
+        refine relV_failed sh.nn p st _ ?_
         exact Under.append (under_noerrs p e hne) (under_single' _ _ _ _)
       | val v =>
         simp only []
-        rw [St.invoked_eq, St.append_assoc]
-        have he1 : (e.append (eff [] [(pathStr p, "resolver")])).errs = [] := by simp [hne]
+        rw [hres, St.append_assoc]
+        have he1 : (e.append (eff [] I)).errs = [] := by simp [hne]
         by_cases hif : (sh.isIface && v.isNull) = true
         · simp only [hif, ↓reduceIte]
           exact relV_mustNotBeNull sh.nn p st _ he1 hc
         · simp only [hif, Bool.false_eq_true, ↓reduceIte]
-          have := value_rel o sh v p (st.append (e.append (eff [] [(pathStr p, "resolver")]))) hwf
+          have := value_rel o sh v p (st.append (e.append (eff [] I))) hwf
             (hc.append_noerrs he1)
           exact this.shift _ he1
 
